@@ -1,5 +1,6 @@
 import FV.Drv.Common
 import FV.Model.Global
+import FV.Model.Registers
 /- op table for the process-state model (C20): `F eps <kDie> <kNet> <inf> <n> (die 2 w h | net k d1…dk | alloc 2 w h)*`
    → tolerance state after that history from a fresh process: `none` or `<dist> <area>`. -/
 namespace FV.Drv
@@ -35,5 +36,38 @@ def globalOp (op : String) (args : List String) : Option String :=
       | none => "none"
       | some e => s!"{sc e.dist} {sc e.area}"
   | _ => none
+
+end FV.Drv
+
+namespace FV.Drv
+open FV FV.Proc
+
+/-- register ops on the wire: `set <tag> | get | eq <hard 0/1> | var <name> | off <f> | on <f> | dbg <f>`. -/
+def pRegOp : P RegOp := do
+  let t ← tok
+  match t with
+  | "set" => do let n ← pNat; pure (.setEpsilon n)
+  | "get" => pure .getEpsilon
+  | "eq" => do let b ← pBool; pure (.addEquation b)
+  | "var" => do let n ← tok; pure (.createVariable n)
+  | "off" => do let n ← pNat; pure (.turnOff n)
+  | "on" => do let n ← pNat; pure (.turnOn n)
+  | "dbg" => do let n ← pNat; pure (.debug n)
+  | _ => failure
+
+def showRegOut : RegOut → String
+  | .unit => "u"
+  | .tag t => s!"t{t}"
+  | .name s => s!"n:{s}"
+  | .printed b => s!"p{b01 b}"
+  | .nameError => "err:NameError"
+  | .diverges => "diverges"
+
+/-- `F regs <n> op…` → outputs, then the final registers `eps=<tag|none> debug=<mask> names=<k>`. -/
+def regsOp (args : List String) : Option String :=
+  (runP (pList pRegOp) args).map fun ops =>
+    let (s, os) := runRegs LegalRegs.init ops
+    let e := match s.eps with | some t => toString t | none => "none"
+    " ".intercalate (os.map showRegOut) ++ s!" | eps={e} debug={s.debug} names={s.names.length}"
 
 end FV.Drv
